@@ -13,6 +13,7 @@ from pyasn1.compat.integer import to_bytes
 from pyasn1.compat.octets import (int2oct, oct2int, ints2octs, null,
                                   str2octs, isOctetsType)
 from pyasn1.type import char
+from pyasn1.type import constraint
 from pyasn1.type import tag
 from pyasn1.type import univ
 from pyasn1.type import useful
@@ -191,10 +192,14 @@ class BitStringEncoder(AbstractItemEncoder):
             value = asn1Spec.clone(value)
 
         valueLength = len(value)
+
+        # the constraints of the type (e.g. its SIZE) hold for the value,
+        # not for its padded form or the segments it is split into
+        alignedValue = value.clone(
+            subtypeSpec=constraint.ConstraintsIntersection())
+
         if valueLength % 8:
-            alignedValue = value << (8 - valueLength % 8)
-        else:
-            alignedValue = value
+            alignedValue = alignedValue << (8 - valueLength % 8)
 
         maxChunkSize = options.get('maxChunkSize', 0)
         if not maxChunkSize or len(alignedValue) <= maxChunkSize * 8:
